@@ -211,6 +211,10 @@ def families(tier):
     for pout, pin2 in [(0, 0), ("ROUND_ROBIN", "ROUND_ROBIN"), ("FIRST_AVAILABLE", "FIRST_AVAILABLE"), (0, "FIRST_AVAILABLE")]:
         C.append(fleet_mid(pout=pout, pin2=pin2))
         C.append(fleet_mid(pout=pout, pin2=pin2, fcap=2, fdelay=6, transit=0, pd=(0,), pd2=(0,)))
+        # the fleet is filled, unloaded and refilled within one instant: feeders slower than the first machine,
+        # downstream machine as slow as the feeders
+        C.append(fleet_mid(pout=pout, pin2=pin2, iat1=(4,) * 12, iat2=(4,) * 12, pd=(2,), pd2=(4,), fcap=3, fdelay=8, transit=1, T=200))
+        C.append(fleet_mid(pout=pout, pin2=pin2, iat1=(4,) * 12, iat2=(4,) * 12, pd=(2,), pd2=(4,), fcap=2, fdelay=12, transit=2, T=200))
         C.append(fleet_mid(pout=pout, pin2=pin2, wc=3, iat1=(1,) * 10, iat2=(1,) * 10, pd=(3,), fcap=4, fdelay=12, transit=2, pd2=(2,)))
     for mode, spin, delay in itertools.product(["LIFO", "FIFO"], ["FIRST_AVAILABLE", "ROUND_ROBIN", 0], [0, 2]):
         C.append(pallet_split(mode=mode, spin=spin, delay=delay))
